@@ -1749,7 +1749,8 @@ def rule_L1(repo: Repo) -> RuleResult:
         raise AnalysisError("L1: level loop of argsort_index_numeric_only not found")
     l = loops[0]
     lvl, codes = (e.id for e in l.target.elts) if isinstance(l.target, ast.Tuple) and len(l.target.elts) == 2 else (None, None)
-    it_ok = isinstance(l.iter, ast.Call) and norm(l.iter.func) == "zip" and [norm(a) for a in l.iter.args] == [f"{ip}.levels", f"{ip}.codes"]
+    from .canon import subst_single_defs as _ssd
+    it_ok = isinstance(l.iter, ast.Call) and norm(l.iter.func) == "zip" and [norm(_ssd(f, a)) for a in l.iter.args] == [f"{ip}.levels", f"{ip}.codes"]
     appends = [c for c in ast.walk(l) if isinstance(c, ast.Call) and isinstance(c.func, ast.Attribute) and c.func.attr == "append"]
     rank_ok = asis_ok = False
     lst = None
